@@ -306,7 +306,7 @@ func (ch *chainSpec) describe() string {
 		return fmt.Sprintf("global=%v a=%v b=%v admin=%v", s[0], s[1], s[2], s[3])
 	}
 	focus := chainFocusSource[ch.Focus]
-	fmt.Fprintf(&b, "every token is an %s: reference to a source named below; booted with %s, source %s holding %s", ch.Kind, show(st), focus, ch.contentText(st.content))
+	fmt.Fprintf(&b, "every token is a reference (%s:) to a source named below; booted with %s, source %s holding %s", ch.Kind, show(st), focus, ch.contentText(st.content))
 	for i, op := range ch.Ops {
 		st = st.step(op)
 		what := ""
@@ -339,29 +339,37 @@ func (ch *chainSpec) contentText(c string) string {
 
 // ---- the sources of one world -----------------------------------------------
 
+// Every boot stands for a new process, so every boot gets source names (file paths, variable names) that this
+// test process has never used before: whatever a tree remembers per path or per name cannot leak from one boot
+// into the next. They are derived from the boot's unique in-memory host address and dropped at shutdown.
 type chainSources struct {
 	kind, bad string
-	dir       string // files
-	prefix    string // environment variable names (process-wide: unique per world directory)
-	// holds: what put last wrote per source (the sources outlive a re-boot of the world; nobody else writes them)
-	holds map[string]string
+	dir       string            // files
+	prefix    string            // environment variable names
+	holds     map[string]string // what put last wrote per source
 }
 
-func (w *world) chainSources() chainSources {
+func (w *world) newChainSources() *chainSources {
 	ch := w.spec.Chain
-	tag := strings.Map(func(r rune) rune {
-		if (r >= 'a' && r <= 'z') || (r >= 'A' && r <= 'Z') || (r >= '0' && r <= '9') {
-			return r
-		}
-		return '_'
-	}, filepath.Base(w.dir))
-	if w.srcHolds == nil {
-		w.srcHolds = map[string]string{}
-	}
-	return chainSources{kind: ch.Kind, bad: ch.Bad, dir: filepath.Join(w.dir, "src"), prefix: "C11C_" + tag + "_", holds: w.srcHolds}
+	host, _, _ := strings.Cut(w.ad.ingress, ":")
+	tag := strings.ReplaceAll(host, ".", "_")
+	return &chainSources{kind: ch.Kind, bad: ch.Bad, dir: filepath.Join(w.dir, "src-"+tag), prefix: "C11C_" + tag + "_", holds: map[string]string{}}
 }
 
-func (s chainSources) ref(name string) string {
+func (w *world) dropChainSources() {
+	if w.src == nil {
+		return
+	}
+	os.RemoveAll(w.src.dir)
+	if w.src.kind == "env" {
+		for _, n := range chainSourceNames {
+			os.Unsetenv(w.src.prefix + n)
+		}
+	}
+	w.src = nil
+}
+
+func (s *chainSources) ref(name string) string {
 	if s.kind == "env" {
 		return "env:" + s.prefix + name
 	}
@@ -369,7 +377,7 @@ func (s chainSources) ref(name string) string {
 }
 
 // put makes source name hold value; ok=false makes it unresolvable in the world's way.
-func (s chainSources) put(name, value string, ok bool) error {
+func (s *chainSources) put(name, value string, ok bool) error {
 	now := "=" + value
 	if !ok {
 		now = "unresolvable"
@@ -385,7 +393,7 @@ func (s chainSources) put(name, value string, ok bool) error {
 	return nil
 }
 
-func (s chainSources) write(name, value string, ok bool) error {
+func (s *chainSources) write(name, value string, ok bool) error {
 	if s.kind == "env" {
 		switch {
 		case ok:
@@ -415,7 +423,7 @@ func (s chainSources) write(name, value string, ok bool) error {
 	return nil // missing
 }
 
-func (ch *chainSpec) text(st chainState, ad addrs, s chainSources) string {
+func (ch *chainSpec) text(st chainState, ad addrs, s *chainSources) string {
 	src := ch.sources(st)
 	refs := func(names []string) []string {
 		var out []string
@@ -431,7 +439,9 @@ func (ch *chainSpec) text(st chainState, ad addrs, s chainSources) string {
 // reload. Called by fresh() in place of the plain boot, i.e. again after every row that changed the state.
 func (w *world) bootChain() error {
 	ch := w.spec.Chain
-	s := w.chainSources()
+	w.dropChainSources()
+	s := w.newChainSources()
+	w.src = s
 	st := ch.start()
 	focus := chainFocusSource[ch.Focus]
 	for _, n := range chainSourceNames {
@@ -463,11 +473,11 @@ func (w *world) bootChain() error {
 		applied = append(applied, a.Reload("c11-chain"))
 	}
 	w.text = text
-	if w.decided {
-		if fmt.Sprint(applied) != fmt.Sprint(ch.Applied) {
-			return fmt.Errorf("%s: reload outcomes %v differ from the recorded ones %v", ch.id(), applied, ch.Applied)
-		}
+	if w.decided && fmt.Sprint(applied) == fmt.Sprint(ch.Applied) {
 		return nil
+	}
+	if w.decided && !w.redecide {
+		return fmt.Errorf("%s: reload outcomes %v differ from the recorded ones %v", ch.id(), applied, ch.Applied)
 	}
 	decidedChain := *ch // the enumerated spec is not written to
 	decidedChain.Applied = applied
@@ -563,12 +573,16 @@ func meetsBad(start chainState, ops []string) bool {
 //
 //	quick:    file: / missing, focus ∈ {A, global, admin}, starts {referenced+v1, unreferenced+unresolvable}, all
 //	          histories of length 1..2 in which the content of s changes only while the Hookaidofile references s
-//	          (42 per focus); env: / unset, focus A, the same starts and histories
-//	thorough: file: / missing, all four focus lists, all three starts, all histories of length 1..3;
-//	          env: / unset: the same with length 1..2; every other way of being unresolvable (file empty, blank,
-//	          directory; variable empty): all histories of length 1..2 in which the source is unresolvable at some
-//	          point. Worlds that are not in quick, and the quick worlds other than file:/focus A, run the
-//	          quick-size table (cfgSpec.Lean).
+//	          (42 per focus); env: / unset, focus A, the same starts and histories; file empty | blank |
+//	          directory and variable empty, focus A: the two one-step histories whose reload faces the
+//	          unresolvable source (referenced: set:bad; unreferenced+unresolvable: edit)
+//	thorough: file: / missing and env: / unset: all four focus lists x all three starts x ALL histories of length
+//	          1..2 (30 each); file: / missing, first two starts: plus the histories of length 3 in which the
+//	          content of s changes only while referenced (103 + 45 per focus); every other way of being
+//	          unresolvable (file empty, blank, directory; variable empty): the histories of length 1..2 (content
+//	          changes only while referenced) in which the source is unresolvable at some point (24 per focus).
+//	          Worlds that are not in quick, and the quick worlds other than file:/focus A, run the quick-size
+//	          table (cfgSpec.Lean).
 func chainSpecs(r *runner.Run) []cfgSpec {
 	type start struct {
 		member  bool
@@ -588,15 +602,24 @@ func chainSpecs(r *runner.Run) []cfgSpec {
 		r.Add(fmt.Sprintf("reload_chains_of_%d_steps", len(ops)), 1)
 	}
 	// quick (both tiers)
-	for _, kf := range []struct {
-		kind, bad string
-		focus     []string
-	}{{"file", "missing", []string{"A", "global", "admin"}}, {"env", "unset", []string{"A"}}} {
-		for _, focus := range kf.focus {
-			for _, s := range starts[:2] {
-				for _, ops := range histories(chainState{member: s.member, content: s.content}, 2, true) {
-					add(focus, kf.kind, kf.bad, s, ops, !(kf.kind == "file" && focus == "A"))
-				}
+	// the other ways of being unresolvable: the one-step histories whose reload faces the unresolvable source
+	for _, kb := range [][2]string{{"file", "empty"}, {"file", "blank"}, {"file", "dir"}, {"env", "empty"}} {
+		add("A", kb[0], kb[1], starts[0], []string{"set:bad"}, true)
+		add("A", kb[0], kb[1], starts[1], []string{"edit"}, true)
+	}
+	// (history outermost: a run that its wall budget ends early has then seen the first histories under every
+	// focus list and source kind rather than every history under the first focus list)
+	var hs [2][][]string
+	for i, s := range starts[:2] {
+		hs[i] = histories(chainState{member: s.member, content: s.content}, 2, true)
+	}
+	for n := 0; n < len(hs[0]) || n < len(hs[1]); n++ {
+		for i, s := range starts[:2] {
+			if n >= len(hs[i]) {
+				continue
+			}
+			for _, kf := range []struct{ kind, bad, focus string }{{"file", "missing", "A"}, {"env", "unset", "A"}, {"file", "missing", "global"}, {"file", "missing", "admin"}} {
+				add(kf.focus, kf.kind, kf.bad, s, hs[i][n], !(kf.kind == "file" && kf.focus == "A"))
 			}
 		}
 	}
@@ -605,13 +628,20 @@ func chainSpecs(r *runner.Run) []cfgSpec {
 	}
 	for _, kb := range []struct {
 		kind, bad string
-		maxLen    int
 		onlyBad   bool
-	}{{"file", "missing", 3, false}, {"env", "unset", 2, false}, {"file", "empty", 2, true}, {"file", "blank", 2, true}, {"file", "dir", 2, true}, {"env", "empty", 2, true}} {
+	}{{"file", "missing", false}, {"env", "unset", false}, {"file", "empty", true}, {"file", "blank", true}, {"file", "dir", true}, {"env", "empty", true}} {
 		for _, focus := range []string{"A", "B", "global", "admin"} {
-			for _, s := range starts {
+			for i, s := range starts {
 				st := chainState{member: s.member, content: s.content}
-				for _, ops := range histories(st, kb.maxLen, false) {
+				hs := histories(st, 2, kb.onlyBad)
+				if kb.kind == "file" && kb.bad == "missing" && i < 2 {
+					for _, ops := range histories(st, 3, true) {
+						if len(ops) == 3 {
+							hs = append(hs, ops)
+						}
+					}
+				}
+				for _, ops := range hs {
 					if kb.onlyBad && !meetsBad(st, ops) {
 						continue
 					}
